@@ -11,6 +11,7 @@ import (
 	"google.golang.org/genproto/googleapis/api/annotations"
 	"google.golang.org/genproto/googleapis/api/serviceconfig"
 	"google.golang.org/protobuf/proto"
+	"google.golang.org/protobuf/reflect/protoreflect"
 	"larking.io/larking"
 	"pgregory.net/rapid"
 
@@ -125,6 +126,15 @@ func expect(c Case) (string, string) {
 			leaf := fds[len(fds)-1]
 			if leaf.IsList() || leaf.IsMap() || leaf.Message() != nil {
 				set(either, "variable on a non-scalar field")
+			}
+			if leaf.Kind() != protoreflect.StringKind {
+				// a typed variable whose pattern spells literals or several
+				// segments can never capture convertible text
+				for _, sg := range tm.Segs {
+					if sg.Kind == ref.Var && strings.Join(sg.Field, ".") == strings.Join(fp, ".") && !(len(sg.Pat) == 1 && sg.Pat[0].Kind == ref.Star) {
+						set(either, "typed variable with a multi-segment or literal pattern")
+					}
+				}
 			}
 			for _, fd := range fds[:len(fds)-1] {
 				if fd.IsList() || fd.IsMap() {
